@@ -367,6 +367,7 @@ def next_job_batch():
         jobs = {job.tag: job for job in que}
         for job in filter(lambda j: j.get('todo'), que):
             available = job.get('todo').copy()
+            available -= job.get('doing')  # still executing from an earlier batch
             for dep in jobs.keys() & job.get('ancestry'):
                 for target in job.get('todo'):
                     dependency = find(dep)
